@@ -215,8 +215,11 @@ func ExecSer(op M) (res any) {
 	if asStr(op["op"]) != "serSeq" {
 		return "unknown-op"
 	}
-	f := formats.Format(asStr(op["fmt"]))
 	out := []any{}
+	// "the same document" is the same object: an entry that repeats an earlier one of the sequence
+	// is serialized from the very value that was serialized before (a serializer that edits its
+	// input shows up as a different output the second time)
+	objs := map[string]*sbom.Document{}
 	for _, s := range asList(op["docs"]) {
 		sm, ok := s.(M)
 		if !ok {
@@ -226,7 +229,17 @@ func ExecSer(op M) (res any) {
 		if sm["indent"] != nil {
 			indent = int(asInt(sm["indent"]))
 		}
-		out = append(out, runSer(serDocOf(sm), f, indent, sm["nilRender"] == true))
+		f := formats.Format(asStr(op["fmt"]))
+		if sm["fmt"] != nil {
+			f = formats.Format(asStr(sm["fmt"])) // cross-format histories
+		}
+		key := js(M{"doc": sm["doc"], "nils": sm["nils"], "absent": sm["absent"]})
+		d, seen := objs[key]
+		if !seen {
+			d = serDocOf(sm)
+			objs[key] = d
+		}
+		out = append(out, runSer(d, f, indent, sm["nilRender"] == true))
 	}
 	return out
 }
@@ -263,6 +276,15 @@ func (g *G) serDoc() M {
 		case 5:
 			a["Identifiers"] = []any{[]any{float64(g.Pick2([]int{-1, 0, 42})), "x"}}
 		}
+	}
+	if len(nodes) >= 2 && g.Chance(0.15) {
+		// an identifier with the prefix and the flag of generated references but not their shape
+		nodes[len(nodes)-1].(M)["id"] = g.Pick([]string{"protobom-auto", "protobom-auto-000000001", "protobom--auto"})
+	}
+	if len(nodes) >= 3 && g.Chance(0.3) {
+		// a dependency edge that repeats a target before naming other ones
+		id := func(i int) any { return nodes[i%len(nodes)].(M)["id"] }
+		nl["edges"] = append(asList(nl["edges"]), M{"ty": 10.0, "src": id(0), "tos": []any{id(1), id(1), id(2), id(0)}})
 	}
 	if es := asList(nl["edges"]); len(es) > 0 && g.Chance(0.3) {
 		e := es[g.Int(len(es))].(M)
@@ -338,6 +360,13 @@ func serGen(g *G, tier string) []M {
 		}
 		// nil render options
 		ops = append(ops, M{"op": "serSeq", "fmt": string(f), "docs": []any{M{"doc": good, "nils": []any{}, "nilRender": true}}})
+		// cross-format history over one document value: what a format gives must not depend on the
+		// formats the same value was written in before
+		if i%2 == 0 {
+			in := func(ff formats.Format) M { m := mk(good); m["indent"] = 2.0; m["fmt"] = string(ff); return m }
+			ops = append(ops, M{"op": "serSeq", "fmt": string(formats.SPDX23JSON), "docs": []any{in(formats.SPDX23JSON), in(formats.CDX15JSON), in(formats.SPDX23JSON),
+				in(formats.CDX14JSON), in(formats.CDX15JSON), in(formats.SPDX23JSON), in(formats.CDX14JSON)}})
+		}
 		if i%4 == 0 {
 			// a node contained in two others (and one on a containment cycle), serialized six times:
 			// the placement must not depend on anything but the document
